@@ -86,6 +86,9 @@ def k_mont(l1):
         s = z3.Solver()
         for c in r.pc:
             s.add(c)
+        if not all(isinstance(x, int) or z3.is_bv(x) for x in out[:32]):
+            chk.add(Ob("%s: output = canonical 32-byte little-endian encoding of u" % label, "error:output bytes are not plain values (%r)" % (out[:2],), 0, [fname], "BV"))
+            continue
         s.add(z3.Not(z3.And([out[i] == enc[i] for i in range(32)])))
         chk.add(Ob("%s: output = canonical 32-byte little-endian encoding of u" % label, str(s.check()), 0, [fname], "BV"))
         chk.fact("%s: fresh 32-byte buffer; point not written" % label, sl.len == 32 and l1.ex.meta[sl.obj].kind in ("heap", "stack") and not any(w[0] == "w" and w[1] == p.obj for w in r.log), [fname])
